@@ -300,11 +300,17 @@ int64_t cmb_resource_preempt(struct cmb_resource *rp)
         cmi_process_remove_holdable(victim, hrp);
         cmi_process_cancel_awaiteds(victim);
         rp->holder = NULL;
+        /*
+         * The bad news goes first in this instant, whatever the priority of
+         * the victim: an interrupt or timer that got to the victim before it
+         * would sweep the notice away, and the victim would never learn that
+         * it no longer holds the resource.
+         */
         (void)cmb_event_schedule(wakeup_event_preempt,
                                  (void *)victim,
                                  (void *)CMB_PROCESS_PREEMPTED,
                                  cmb_time(),
-                                 victim->priority);
+                                 INT64_MAX);
 
         /* Take its place */
         resource_grab(rp, pp);
